@@ -4,8 +4,9 @@ import (
 	"encoding/json"
 	"fmt"
 	"os"
+	"sort"
+	"strings"
 
-	"github.com/grindlemire/go-lucene/verifharness/impl"
 	"github.com/grindlemire/go-lucene/verifharness/modelproc"
 )
 
@@ -22,8 +23,9 @@ func replay(modeld, tables, path string) int {
 			Failure Failure `json:"failure"`
 		}
 		if json.Unmarshal(b, &wrap) != nil || wrap.Failure.Case.Kind == "" {
-			fmt.Fprintln(os.Stderr, "not a replay file")
-			return 2
+			fmt.Fprintln(os.Stderr, "not a replay file with a recorded case (it names a broken obligation only)")
+			fmt.Println(string(b))
+			return 0
 		}
 		f = wrap.Failure
 	}
@@ -33,20 +35,34 @@ func replay(modeld, tables, path string) int {
 		return 2
 	}
 	defer mp.Close()
-	show := func(s, df string) {
-		r := impl.RunQuery(s, df)
-		resp, _ := mp.Ask("q\t" + impl.Hex(s) + "\t" + impl.Hex(df))
-		m := splitModelQ(resp)
-		fmt.Printf("input %q default-field %q\n", s, df)
-		for _, k := range []string{"P", "S", "G", "PG", "PP"} {
-			fmt.Printf("  %-3s impl  %s\n      model %s\n", k, implMapQ(r)[k], m[k])
+	fmt.Printf("recorded: class=%s clause=%s generator=%s kind=%s\n", f.Class, f.Clause, f.Case.Gen, f.Case.Kind)
+	fmt.Printf("input %q default-field %q second %q rel %q\n", f.Case.S, f.Case.DF, f.Case.S2, f.Case.Rel)
+	c := f.Case
+	ps := probesOf(&c)
+	for i, p := range ps {
+		resp, _ := mp.Ask(p.Req)
+		fs := strings.Split(resp, "\t")
+		p.Model = map[string]string{}
+		for fi, name := range fieldNames[p.Op] {
+			if fi < len(fs) {
+				p.Model[name] = fs[fi]
+			}
 		}
-		fmt.Printf("  differing fields: %v\n", diffQ(r, m))
+		fmt.Printf("probe %d (%s)\n", i+1, p.Op)
+		names := append([]string{}, fieldNames[p.Op]...)
+		sort.Strings(names)
+		for _, n := range names {
+			mark := " "
+			if !fieldAgrees(n, p) {
+				mark = "*"
+			}
+			fmt.Printf(" %s %-3s impl  %s\n       model %s\n", mark, n, p.Impl[n], p.Model[n])
+		}
 	}
-	fmt.Printf("recorded: class=%s clause=%s generator=%s\n", f.Class, f.Clause, f.Case.Gen)
-	show(f.Case.S, f.Case.DF)
-	if f.Case.Kind == "pair" {
-		show(f.Case.S2, f.Case.DF2)
+	for id, prop := range properties {
+		if fails := prop.Spec(&c, ps); len(fails) > 0 {
+			fmt.Printf("spec of %s fails: %v\n", id, fails)
+		}
 	}
 	return 0
 }
